@@ -3,7 +3,7 @@
    0x46af6449, 32 trailing zero steps).  Spec: Spec/Crc32.v (textbook bit-serial register, polynomial
    0x04C11DB7, initial value 0xFFFFFFFF, MSB first, no reflection, no final XOR).
    This file holds only the statements; proofs live in Proofs/CrcRegister.v. *)
-From Gots Require Import Base.Prelude Model.Crc Spec.Crc32 Proofs.CrcRegister.
+From Gots Require Import Base.Prelude Model.Crc Spec.Crc32 Proofs.CrcRegister Proofs.CrcUnique Proofs.CrcTable Proofs.CrcLinear Proofs.CrcDetect Proofs.CrcBurst.
 Local Open Scope N_scope.
 
 (* for EVERY byte string (no length bound, no side condition) the four bytes returned are the
@@ -39,6 +39,62 @@ Print Assumptions C13_compute_crc_residue.
 Theorem C13_emitted_section_residue_ok : forall body : bytes, Crc32.residue_ok (body ++ Crc.compute_crc body).
 Proof. exact emitted_section_residue_ok. Qed.
 Print Assumptions C13_emitted_section_residue_ok.
+
+(* receiver side, both directions: for every message and every four-byte trailer, the section passes the
+   receiver's check (register zero) exactly when the trailer is what ComputeCRC returns; so the check accepts
+   every section the library emits and rejects every section whose CRC field alone is damaged *)
+Theorem C13_residue_zero_iff : forall (bs : bytes) c0 c1 c2 c3, is_bytes [c0; c1; c2; c3] ->
+  (Crc32.residue_ok (bs ++ [c0; c1; c2; c3]) <-> [c0; c1; c2; c3] = Crc.compute_crc bs).
+Proof. exact compute_crc_unique. Qed.
+Print Assumptions C13_residue_zero_iff.
+
+(* the register always holds a 32-bit value *)
+Theorem C13_crc_lt : forall bs : bytes, Crc32.crc bs < 4294967296.
+Proof. exact crc_lt. Qed.
+Print Assumptions C13_crc_lt.
+
+(* the specification itself, cross-validated: the usual table-driven byte-at-a-time definition of CRC-32/MPEG-2
+   (Crc32.crc_tab) is the bit-serial register on every byte string, hence also what ComputeCRC returns *)
+Theorem C13_table_driven_is_register : forall bs : bytes, is_bytes bs -> Crc32.crc_tab bs = Crc32.crc bs.
+Proof. exact crc_tab_is_crc. Qed.
+Print Assumptions C13_table_driven_is_register.
+
+Theorem C13_compute_crc_is_table_driven : forall bs : bytes, is_bytes bs ->
+  Crc.compute_crc bs = to_be32 (Crc32.crc_tab bs).
+Proof. exact compute_crc_is_table_driven. Qed.
+Print Assumptions C13_compute_crc_is_table_driven.
+
+(* linearity of the register in the message, in the form used by the correspondence: the linear-time table
+   Crc32.singles_fast L holds, at index 8i+j, the CRC of the L-byte message whose only set bit is bit j (MSB = 0) of byte i;
+   this is what `crc.singles L` of modelexec answers, so that EVERY single-bit string up to 1024 bytes is compared
+   with the real code in the thorough tier *)
+Theorem C13_single_bit_all : forall L i j, (i < L)%nat -> (j < 8)%nat ->
+  nth (8 * i + j) (Crc32.singles_fast L) 0 = Crc32.crc (Crc32.single L i j) /\
+  length (Crc32.singles_fast L) = (8 * L)%nat.
+Proof. exact single_bit_all. Qed.
+Print Assumptions C13_single_bit_all.
+
+(* error detection: flipping any single bit of any message changes the register; hence a section that passes the
+   receivers' check fails it after any single-bit error (in the body or in the CRC field) *)
+Theorem C13_single_bit_error_changes_crc : forall (bs : bytes) i j, (i < length bs)%nat -> (j < 8)%nat ->
+  Crc32.crc (Crc32.flip bs i j) <> Crc32.crc bs.
+Proof. exact single_bit_error_changes_crc. Qed.
+Print Assumptions C13_single_bit_error_changes_crc.
+
+Theorem C13_single_bit_error_detected : forall (s : bytes) i j, (i < length s)%nat -> (j < 8)%nat ->
+  Crc32.residue_ok s -> ~ Crc32.residue_ok (Crc32.flip s i j).
+Proof. exact single_bit_error_detected. Qed.
+Print Assumptions C13_single_bit_error_detected.
+
+(* burst errors: the bit string received differs from the bits of the message by a non-zero 32-bit window w placed
+   anywhere (burst a w b = a zero bits, the 32 bits of w MSB first, b zero bits; zipx = bitwise XOR of bit lists;
+   definitions in Proofs/CrcBurst.v, CrcLinear.v, CrcRegister.v): the register differs, i.e. every burst error of at
+   most 32 bits is detected *)
+Theorem C13_burst_error_changes_crc : forall (bs : bytes) a w b, (8 * length bs = a + 32 + b)%nat ->
+  w < 4294967296 -> w <> 0 ->
+  Crc32.register Crc32.init (zipx (Crc32.bits_of bs) (burst a w b)) <> Crc32.crc bs.
+Proof. exact burst_error_changes_crc. Qed.
+Print Assumptions C13_burst_error_changes_crc.
 
 (* non-vacuity / sanity of the specification: catalogue check value of CRC-32/MPEG-2 ("123456789" -> 0x0376E6E7),
    and the model on the same input *)
